@@ -253,6 +253,9 @@ pub enum Order {
 #[derive(Clone, Copy, Debug, PartialEq, Eq, Hash)]
 pub enum Macro {
     FillTo(usize),
+    /// fill through push_front (ordered queues): drives the position counters below zero, so that
+    /// the re-basing path runs in every round
+    FillFrontTo(usize),
     DrainTo(usize, Order),
 }
 
@@ -277,6 +280,12 @@ fn run_word(cfg: &Cfg, word: &[Macro], reps: usize, log_on: bool) -> (Vec<Violat
                     Macro::FillTo(k) => {
                         while w(|w| w.held()) < k {
                             run.do_push(0, PushHow::Back, false);
+                            run.post_op();
+                        }
+                    }
+                    Macro::FillFrontTo(k) => {
+                        while w(|w| w.held()) < k {
+                            run.do_push(0, PushHow::Front, false);
                             run.post_op();
                         }
                     }
@@ -423,6 +432,29 @@ fn all_words(thorough: bool) -> Vec<(String, Cfg, Vec<Macro>, usize)> {
                     cfg.horizon = 10;
                     let name = format!("words {:?} x{} {:?}", kind, long_reps, word);
                     v.push((name, cfg, word, long_reps));
+                }
+            }
+        }
+    }
+    // ordered queues filled from the front, finishing out of order (outputs parked), many rounds
+    for kind in [Kind::FoNew, Kind::FoCap(1), Kind::FoCap(4)] {
+        for pk in [4usize, 16, 40] {
+            for lo in [0usize, 1] {
+                for o1 in [Order::Fifo, Order::Lifo, Order::Alternate] {
+                    for mid in [None, Some(pk / 2)] {
+                        let mut word = vec![Macro::FillFrontTo(pk)];
+                        if let Some(m) = mid {
+                            word.push(Macro::DrainTo(m, o1));
+                            word.push(Macro::FillTo(pk));
+                        }
+                        word.push(Macro::DrainTo(lo, o1));
+                        let mut cfg = Cfg::new("C18", kind);
+                        cfg.specs = vec![ChildSpec::fut(Mode::Gate)];
+                        cfg.ops = ops::POLL | ops::PUSH | ops::PUSH_FRONT | ops::COMPLETE;
+                        cfg.horizon = 10;
+                        let name = format!("words {:?} x{} {:?}", kind, long_reps, word);
+                        v.push((name, cfg, word, long_reps));
+                    }
                 }
             }
         }
